@@ -62,8 +62,10 @@ THREAD_HARNESSES = [
     ("Foo v. Bar, 1 U.S. 1. Id.", "See 2 U.S. 2, 3."),
     ("1 U.S. 1", "1 U.S. 1"),
     ("Foo, supra, at 3.", "Id. at 5. § 2"),
+    ("Foo v. Bar, 1 P.3d 1, 5 (Wyo. 2001)", "X v. Y, 2 P.3d 2 (Wyo. 2002)"),
 ]
 BOUND = {"quick": {"line": 1, "opcode": 0}, "thorough": {"line": 2, "opcode": 1}}
+VISITS = 3  # each source line is a preemption point for its first 3 executions per thread
 
 CTX = {"plan": {}, "log": [], "active": False}
 
@@ -147,7 +149,15 @@ def setup(tier, seed):
     install_seam()
     if tier == "replay":
         return
+    # Thread schedules first, while this process has never run an extraction: every execution runs in a
+    # freshly forked child, so ALL lazily built state (known or not) is cold for every schedule.
+    G["thread_stats"] = explore_threads_cold(tier)
     tokenizer("HS")
+    status, ties = in_fork(compute_ties)
+    G["ties"] = ties if status == "ok" else []
+
+
+def compute_ties():
     # tie-rich reporter strings, found mechanically
     ties = []
     ac = tokenizer("AC")
@@ -163,14 +173,14 @@ def setup(tier, seed):
             ):
                 ties.append(text)
                 break
-    G["ties"] = ties
+    return ties
 
 
 G = {}
 
 
 def bounds(tier):
-    return {"setorder_alphabet": len(A1), "setorder_depth": 2, "tie_strings": len(G.get("ties", [])), "max_deviating_iterations": 1 if tier == "quick" else 2, "hash_seeds": 4 if tier == "quick" else 32, "history_len": 3, "operations": [o[0] for o in OPS], "thread_harnesses": len(THREAD_HARNESSES), "preemption_bound": BOUND[tier]}
+    return {"setorder_alphabet": len(A1), "setorder_depth": 2, "tie_strings": len(G.get("ties", [])), "max_deviating_iterations": 1 if tier == "quick" else 2, "hash_seeds": 4 if tier == "quick" else 32, "history_len": 3, "operations": [o[0] for o in OPS], "thread_harnesses": len(THREAD_HARNESSES), "preemption_bound": BOUND[tier], "scheduling_point_visits_per_line": VISITS}
 
 
 # ---- setorder -----------------------------------------------------------------------------------
@@ -448,60 +458,138 @@ def run_histories(st, sh):
 # ---- threads ------------------------------------------------------------------------------------
 
 
-def cold_reset(texts):
-    def reset():
-        ac = T.default_tokenizer
-        for t in texts:
-            for e in ac.get_extractors(t):
-                e.__dict__.pop("_compiled_regex", None)
-
-    return reset
-
-
-def thread_setup(h):
+def one_execution(h, gran, prefix):
     texts = THREAD_HARNESSES[h]
-    expected = [sers(get_citations(t)) for t in texts]
-
-    def make_bodies():
-        return [lambda t=t: sers(get_citations(t)) for t in texts]
-
-    return texts, expected, make_bodies, cold_reset(texts)
+    opfiles = ("tokenizers.py", "models.py") if gran == "opcode" else ()
+    bodies = [lambda t=t: sers(get_citations(t)) for t in texts]
+    return sched.Record(sched.Execution(bodies, prefix, opfiles, visits=VISITS).run())
 
 
-def run_threads(st, sh):
-    p = st.part(f"threads-{sh['gran']}")
-    texts, expected, make_bodies, reset = thread_setup(sh["h"])
-    opfiles = ("tokenizers.py", "models.py") if sh["gran"] == "opcode" else ()
+def cold_execution(h, gran, prefix):
+    status, rec = in_fork(lambda: one_execution(h, gran, prefix))
+    if status != "ok":
+        raise sched.Divergence(f"execution child failed: {rec}")
+    return rec
+
+
+def sequential_expected(h):
+    status, out = in_fork(lambda: [sers(get_citations(t)) for t in THREAD_HARNESSES[h]])
+    if status != "ok":
+        raise sched.Divergence(f"sequential baseline failed: {out}")
+    return out
+
+
+def _thread_task(task):
+    h, gran, bound, prefixes, expected = task
+    st = Stats()
+    p = st.part(f"threads-{gran}")
+    texts = THREAD_HARNESSES[h]
     stats = {}
 
     def on_exec(x):
         st.evaluations += 1
         st.traces += 1
         p["evaluations"] += 1
-        sw = sum(1 for i, c in enumerate(x.choices) if c != 0)
-        key = h64([sh["h"], sh["gran"], x.choices])
+        sw = sum(1 for c in x.choices if c != 0)
+        key = h64([h, gran, x.choices])
         st.states.add(key)
         st.transitions += len(x.points)
         if sw:
             st.nontrivial.add(key)
             if not st.samples:
                 i = next(i for i, c in enumerate(x.choices) if c != 0)
-                st.sample({"part": "threads", "harness": list(texts), "granularity": sh["gran"], "first_switch_at_point": i, "location": list(x.points[i][2]), "points": len(x.points)})
+                st.sample({"part": "threads", "harness": list(texts), "granularity": gran, "first_switch_at_point": i, "location": list(x.points[i][2]), "points": len(x.points)})
         got = [r[1] if r[0] == "ok" else r for r in x.results]
         st.outcomes.add(h64(got))
         if got != expected:
             k = next(i for i in range(len(got)) if got[i] != expected[i])
             det = got[k] if isinstance(got[k], tuple) else diff_brief(expected[k], got[k])
             sched_ = [i for i, c in enumerate(x.choices) if c != 0]
-            case = {"part": "threads", "h": sh["h"], "gran": sh["gran"], "choices": _compress(x.choices)}
+            case = {"part": "threads", "h": h, "gran": gran, "choices": _compress(x.choices)}
             st.violation(case, f"thread-schedule: thread {k} ({texts[k]!r}) result differs from the sequential run under the schedule switching at points {sched_}: {det}", label="thread-schedule")
 
     try:
-        for prefix, sig in sh["prefixes"]:
-            sched.explore(make_bodies, reset, prefix, sig, sh["bound"], on_exec, opfiles, stats)
+        for prefix, sig in prefixes:
+            sched.explore_with(lambda pre: cold_execution(h, gran, pre), prefix, sig, bound, on_exec, stats)
     except sched.Divergence as e:
         st.extra.setdefault("harness_errors", []).append(f"scheduler divergence: {e}")
-    st.extra["schedule_points"] = st.extra.get("schedule_points", 0) + stats.get("points", 0)
+    st.extra["schedule_points"] = stats.get("points", 0)
+    return st
+
+
+def _freerun_job(calls):
+    texts = [t for h in THREAD_HARNESSES for t in h]
+    bad = []
+    old = sys.getswitchinterval()
+    sys.setswitchinterval(1e-6)
+    results = {}
+
+    def body(k):
+        for i in range(calls):
+            t = texts[(i + k) % len(texts)]
+            try:
+                got = sers(get_citations(t))
+            except Exception as e:  # noqa: BLE001
+                got = ("exc", short_exc(e))
+            results.setdefault(t, []).append(got)
+
+    try:
+        ths = [threading.Thread(target=body, args=(k,)) for k in range(8)]
+        for t in ths:
+            t.start()
+        for t in ths:
+            t.join()
+    finally:
+        sys.setswitchinterval(old)
+    # judged against the sequential result computed afterwards in the same (now warm) process AND
+    # against mutual agreement: every call on the same text must give the same answer
+    for t in texts:
+        seq = sers(get_citations(t))
+        for got in results.get(t, []):
+            if got != seq:
+                bad.append((t, repr(got)[:300]))
+                break
+    return bad
+
+
+def explore_threads_cold(tier):
+    import multiprocessing as mp
+
+    total = Stats()
+    tasks = []
+    for h in range(len(THREAD_HARNESSES)):
+        for gran in ("line", "opcode"):
+            b = BOUND[tier][gran]
+            if gran == "opcode" and b == 0 and h > 0:
+                continue
+            try:
+                expected = sequential_expected(h)
+                root = cold_execution(h, gran, [])
+            except sched.Divergence as e:
+                total.extra.setdefault("harness_errors", []).append(str(e))
+                continue
+            if root.error:
+                total.extra.setdefault("harness_errors", []).append(root.error)
+                continue
+            kids = sched.children_of(root, b)
+            tasks.append((h, gran, -1, [([], None)], expected))
+            chunk = max(1, len(kids) // 64)
+            for i in range(0, len(kids), chunk):
+                tasks.append((h, gran, b, kids[i : i + chunk], expected))
+    with mp.get_context("fork").Pool(16) as pool:
+        for st in pool.imap_unordered(_thread_task, tasks, chunksize=1):
+            total.merge(st)
+    # supplementary free-running pass, also from cold state
+    calls = 40 if tier == "quick" else 400
+    status, bad = in_fork(lambda: _freerun_job(calls))
+    p = total.part("freerun")
+    p["evaluations"] += 8 * calls
+    total.evaluations += 8 * calls
+    total.extra["freerun_calls"] = 8 * calls
+    if status == "ok":
+        for t, got in bad[:1]:
+            total.violation({"part": "freerun", "calls": calls}, f"free-running-threads: result for {t!r} differs under free-running threads: {got}", label="freerun", soft=True)
+    return total
 
 
 def _compress(choices):
@@ -514,42 +602,6 @@ def _expand(comp):
     for i, c in comp[:-1]:
         out[i] = c
     return out
-
-
-def run_freerun(st, sh):
-    p = st.part("freerun")
-    texts = [t for h in THREAD_HARNESSES for t in h]
-    expected = {t: sers(get_citations(t)) for t in texts}
-    cold_reset(texts)()
-    bad = []
-    old = sys.getswitchinterval()
-    sys.setswitchinterval(1e-6)
-
-    def body(k):
-        for i in range(sh["calls"]):
-            t = texts[(i + k) % len(texts)]
-            try:
-                got = sers(get_citations(t))
-            except Exception as e:  # noqa: BLE001
-                got = ("exc", short_exc(e))
-            if got != expected[t]:
-                bad.append((t, got))
-
-    try:
-        ths = [threading.Thread(target=body, args=(k,)) for k in range(8)]
-        for t in ths:
-            t.start()
-        for t in ths:
-            t.join()
-    finally:
-        sys.setswitchinterval(old)
-    n = 8 * sh["calls"]
-    st.evaluations += n
-    p["evaluations"] += n
-    st.extra["freerun_calls"] = n
-    for t, got in bad[:3]:
-        st.violation({"part": "freerun", "calls": sh["calls"]}, f"free-running-threads: result for {t!r} differs under free-running threads: {got!r:.300}", label="freerun", soft=True)
-        break
 
 
 # ---- driver ------------------------------------------------------------------------------------
@@ -569,20 +621,7 @@ def shards(tier, seed):
     for tok in ("AC", "HS"):
         for r in range(16):
             out.append({"part": "histories", "tok": tok, "r": r, "n": 16})
-    install_seam()
-    for h in range(len(THREAD_HARNESSES)):
-        for gran in ("line", "opcode"):
-            b = BOUND[tier][gran]
-            if gran == "opcode" and b == 0 and h > 0:
-                continue
-            texts, expected, make_bodies, reset = thread_setup(h)
-            opfiles = ("tokenizers.py", "models.py") if gran == "opcode" else ()
-            root, kids = sched.children(make_bodies, reset, b, opfiles)
-            out.append({"part": "threads", "h": h, "gran": gran, "bound": b, "prefixes": [([], None)], "root_only": True})
-            chunk = max(1, len(kids) // 96)
-            for i in range(0, len(kids), chunk):
-                out.append({"part": "threads", "h": h, "gran": gran, "bound": b, "prefixes": kids[i : i + chunk]})
-    out.append({"part": "freerun", "calls": 300 if tier == "quick" else 2000})
+    out.append({"part": "threads"})
     return out
 
 
@@ -595,11 +634,7 @@ def run_shard(sh):
     elif sh["part"] == "histories":
         run_histories(st, sh)
     elif sh["part"] == "threads":
-        if sh.get("root_only"):
-            sh = dict(sh, bound=-1)  # evaluate the root execution only; its children are separate shards
-        run_threads(st, sh)
-    else:
-        run_freerun(st, sh)
+        return G["thread_stats"]  # explored in setup(), from cold state, before anything else ran
     return st
 
 
@@ -614,19 +649,16 @@ def replay(case):
         base = get_baselines(case["tok"])
         return [{"msg": f"{lab}: {det}", "label": lab} for lab, det in check_history(case["hist"], case["tok"], base)]
     if part == "threads":
-        texts, expected, make_bodies, reset = thread_setup(case["h"])
-        opfiles = ("tokenizers.py", "models.py") if case["gran"] == "opcode" else ()
-        reset()
-        x = sched.Execution(make_bodies(), _expand(case["choices"]), opfiles).run()
+        expected = sequential_expected(case["h"])
+        x = cold_execution(case["h"], case["gran"], _expand(case["choices"]))
         got = [r[1] if r[0] == "ok" else r for r in x.results]
         if got != expected:
             return [{"msg": f"thread-schedule: results differ from the sequential run under the recorded schedule: {got!r:.400}", "label": "thread-schedule"}]
         return []
     if part == "freerun":
         for attempt in range(3):
-            st = Stats()
-            run_freerun(st, {"calls": case["calls"]})
-            if st.violations:
+            status, bad = in_fork(lambda: _freerun_job(case["calls"]))
+            if status == "ok" and bad:
                 return [{"msg": "free-running-threads: results differ from the sequential run under free-running OS threads", "label": "freerun"}]
         return []
     return []
